@@ -4,7 +4,10 @@ import itertools, os, re
 from fractions import Fraction
 from concurrent.futures import ThreadPoolExecutor
 import numpy as np
-import _c07_replay as R
+try:
+    from props import _c07_replay as R
+except ImportError:                      # stand-alone use
+    import _c07_replay as R
 
 ERR_NAMES = ["AssertionError", "ValueError", "SpectrumChoiceError", "SpectrumARError", "SpectrumMAError", "SpectrumARMAError",
              "UnboundLocalError", "RecursionError", "TypeError", "AttributeError"]
@@ -268,7 +271,7 @@ def dfs_job(args):
             for c, w in R.conv_check(name, p, ops[-1][1], val):
                 bad.append((list(ops), c, w))
         q = copy.deepcopy(p)
-        for c, w in R.final_checks(name, q):
+        for c, w in R.final_checks(name, q, reassign=(depth < maxdepth or maxdepth == 0)):
             bad.append((list(ops), c, w))
         if depth == maxdepth:
             return
